@@ -192,7 +192,9 @@ func (r *Run) depth(st *State, fn *ssa.Function) (int, bool) {
 }
 
 // afterCall: ghost definitions attached to a call site of the function being analysed:
-//   after-call CALLEE#n assume label : expr      after-call CALLEE#n update : lhs := rhs [if cond]
+//
+//	after-call CALLEE#n assume label : expr      after-call CALLEE#n update : lhs := rhs [if cond]
+//
 // with ret0.. (results) and arg0.. bound. Used to tie rigid ghost histories to library results.
 func (r *Run) afterCall(st *State, fr *Frame, callee string, args []Val, res []Val, sig *types.Signature, in ssa.Instruction) {
 	e := r.e
@@ -441,7 +443,7 @@ func (e *Engine) calleeName(cc *ssa.CallCommon) string {
 
 // usesPathGhosts: does a clause mention ghost state that is local to one execution of a function body.
 func usesPathGhosts(expr string) bool {
-	for _, g := range []string{"spawned(", "calls(", "lastres(", "lastarg(", "lastsent(", "lastrecv(", "lasterr(", "lastrand(",
+	for _, g := range []string{"spawned(", "calls(", "lastres(", "lastarg(", "lastsent(", "lastrecv(", "receivedfrom(", "lasterr(", "lastrand(",
 		"icalls(", "ilast(", "calledsince(", "atomics(", "apre(", "apost(", "aop(", "panicking(", "nolocks(", "held(", "heldW(", "heldR(", "heldcond(", "mapkey(", "mapidx(", "now(", "atentry(", "nevercancelled(", "captured("} {
 		if strings.Contains(expr, g) {
 			return true
